@@ -62,6 +62,13 @@ func corpus() []*lang.Node {
 		// the same shapes where the VM is right
 		C(C(L([]string{"a"}, L([]string{"b"}, C(S("sub"), S("a"), S("b")))), I(1)), I(2)),
 		C(S("call1"), L([]string{"a"}, C(S("call1"), L([]string{"b"}, C(S("add"), S("a"), S("b"))), I(10))), I(20)),
+		// the variadic functions of the real table: complete with any number of arguments ≥ the fixed ones
+		C(S("collection")), C(S("collection"), C(S("pair"), I(1), I(2)), C(S("pair"), I(3), S("add"))),
+		C(S("collection"), I(1)), C(S("call")), C(S("call"), S("zero")), C(S("call"), S("add"), I(1), I(2)),
+		C(C(S("call")), S("add"), I(1)), C(C(S("call")), S("add"), I(1), I(2)), C(S("call"), S("add"), I(1), I(2), I(3)),
+		C(S("call1"), S("collection"), C(S("pair"), I(1), I(2))), C(S("call"), L([]string{"x"}, S("x")), I(5)),
+		// fixed C21-convert-interface-query: a query out of a function returning interface{} used as a function
+		C(S("call"), C(S("first"), C(S("pair"), lang.QL(&lang.Q{Op: "keyed", A: "a"}), I(1)))),
 	}
 }
 
@@ -83,6 +90,7 @@ func program(req string) (*lang.Node, map[string]bool, string) {
 
 func generate(r *hx.Rand) (*lang.Node, map[string]bool, string) {
 	g := &lang.Gen{R: r, Budget: 4 + r.Intn(22)}
+	g.Variadic = r.Chance(1, 4) // the real variadic collection / call (Builtin.collection, Builtin.call)
 	switch r.Intn(40) {
 	case 0: // many parameters: the MaxArgs boundary
 		n := 29 + r.Intn(7)
